@@ -117,7 +117,9 @@ pub(crate) fn sanitize_namespace(key: &str) -> String {
         })
         .collect();
 
-    if sanitized.trim_matches('_').is_empty() {
+    // "." and ".." are not directory names of their own: they would resolve to the data
+    // directory itself or to its parent.
+    if sanitized.trim_matches('_').is_empty() || sanitized == "." || sanitized == ".." {
         sanitized = format!("ns_{:x}", checksum64(key.as_bytes()));
     }
     sanitized
